@@ -53,30 +53,23 @@ Fixpoint expr_ind2 (e : expr) : P e :=
 End ExprInd.
 
 (* ------------------------------------------------------------------ the hazard predicate *)
-Lemma safe_after p xs t ys : safeb p (xs ++ t :: ys) = true -> safeb (is_id t) ys = true.
+Lemma safe_after xs t ys : safeb (xs ++ t :: ys) = true -> safeb ys = true.
 Proof.
-  revert p. induction xs as [|x xs IH]; intros p H.
+  induction xs as [|x xs IH]; intros H.
   - cbn [app safeb] in H. apply andb_true_iff in H. apply H.
-  - cbn [app safeb] in H. apply andb_true_iff in H. eapply IH. apply H.
+  - cbn [app safeb] in H. apply andb_true_iff in H. apply IH. apply H.
 Qed.
 
-Lemma safe_var p x R : safeb p (TId x :: R) = true ->
+Lemma safe_var x R : safeb (TId x :: R) = true ->
   forall r1, R = TOp LtO :: r1 -> generic_scan 1 r1 = false.
 Proof.
   intros H r1 ->. cbn [safeb] in H. apply andb_true_iff in H. destruct H as [H _].
   apply negb_true_iff in H. exact H.
 Qed.
 
-Lemma safe_paren r : safeb false (TLP :: r) = true -> cast_type r = None.
-Proof.
-  intros H. cbn [safeb] in H. apply andb_true_iff in H. destruct H as [H _].
-  destruct (cast_type r); [discriminate H|reflexivity].
-Qed.
-
-Lemma is_id_utok u : is_id (utok u) = false.
-Proof. destruct u; reflexivity. Qed.
-Lemma is_id_itok d : is_id (itok d) = false.
-Proof. destruct d; reflexivity. Qed.
+(* since fix 34a2124 a parenthesis followed by a (non-type) identifier is never a cast *)
+Lemma cast_type_none r : cast_type r = None.
+Proof. destruct r as [|t r]; [reflexivity|]. destruct t; reflexivity. Qed.
 
 (* ------------------------------------------------------------------ level tables *)
 Lemma lvl_from_bound t o : forall k, lvl_from k t o = 0 \/ (k <= lvl_from k t o < k + length t).
@@ -295,24 +288,24 @@ Ltac norm := cbn [app] in *; repeat (rewrite <- app_assoc in *; cbn [app] in *).
 (* ------------------------------------------------------------------ the three statements *)
 (* P: parsing in a context of rank c *)
 Definition Pst (e : expr) : Prop := forall c rest, c <= L + 3 -> folb tbl c rest = true ->
-  safeb false (pr tbl c e ++ rest) = true -> PCtx c (pr tbl c e ++ rest) (strip e, rest).
+  safeb (pr tbl c e ++ rest) = true -> PCtx c (pr tbl c e ++ rest) (strip e, rest).
 (* S: as the left operand of a loop of binary level k *)
 Definition Sst (e : expr) : Prop := forall k R v, 1 <= k <= L -> folb tbl (k + 2) R = true ->
-  safeb false (pr tbl (k + 1) e ++ R) = true -> PLoop tbl k (strip e) R v ->
+  safeb (pr tbl (k + 1) e ++ R) = true -> PLoop tbl k (strip e) R v ->
   exists x r, PBin tbl (S k) (pr tbl (k + 1) e ++ R) (x, r) /\ PLoop tbl k x r v.
 (* Q: as the head of a postfix chain *)
 Definition Qst (e : expr) : Prop := forall R v, starts_lp R = false ->
-  safeb false (pr tbl (L + 4) e ++ R) = true -> PPostL tbl (strip e) R v ->
+  safeb (pr tbl (L + 4) e ++ R) = true -> PPostL tbl (strip e) R v ->
   exists x r, PPrim tbl (pr tbl (L + 4) e ++ R) (x, r) /\ PPostL tbl x r v.
 
 Definition P0 (e : expr) : Prop := forall rest, folb tbl 0 rest = true ->
-  safeb false (pr tbl 0 e ++ rest) = true -> PAsg tbl (pr tbl 0 e ++ rest) (strip e, rest).
+  safeb (pr tbl 0 e ++ rest) = true -> PAsg tbl (pr tbl 0 e ++ rest) (strip e, rest).
 Definition Own (e : expr) : Prop := forall rest, folb tbl (lev tbl e) rest = true ->
-  safeb false (pr tbl 0 e ++ rest) = true ->
+  safeb (pr tbl 0 e ++ rest) = true ->
   PCtx (Nat.min (lev tbl e) (L + 3)) (pr tbl 0 e ++ rest) (strip e, rest).
 
 Lemma P_le e : Own e -> forall c rest, c <= lev tbl e -> c <= L + 3 -> folb tbl c rest = true ->
-  safeb false (pr tbl 0 e ++ rest) = true -> PCtx c (pr tbl 0 e ++ rest) (strip e, rest).
+  safeb (pr tbl 0 e ++ rest) = true -> PCtx c (pr tbl 0 e ++ rest) (strip e, rest).
 Proof.
   intros HO c rest Hc Hc3 Hf Hs.
   apply (descend (Nat.min (lev tbl e) (L + 3) - c) c (Nat.min (lev tbl e) (L + 3))); try lia.
@@ -324,15 +317,15 @@ Qed.
 Lemma P0_of_Own e : Own e -> P0 e.
 Proof. intros HO rest Hf Hs. apply (P_le e HO 0 rest); try lia; assumption. Qed.
 
-Lemma paren_prim e : P0 e -> forall R, safeb false (TLP :: pr tbl 0 e ++ TRP :: R) = true ->
+Lemma paren_prim e : P0 e -> forall R, safeb (TLP :: pr tbl 0 e ++ TRP :: R) = true ->
   PPrim tbl (TLP :: pr tbl 0 e ++ TRP :: R) (strip e, R).
 Proof.
-  intros H0 R Hs. apply R_prim_paren; [apply safe_paren; exact Hs|].
-  apply H0; [reflexivity|]. apply (safe_after false [] TLP). exact Hs.
+  intros H0 R Hs. apply R_prim_paren; [apply cast_type_none|].
+  apply H0; [reflexivity|]. apply (safe_after [] TLP). exact Hs.
 Qed.
 
 Lemma P_gt e : P0 e -> forall c rest, lev tbl e < c -> c <= L + 3 -> folb tbl c rest = true ->
-  safeb false (pr tbl c e ++ rest) = true -> PCtx c (pr tbl c e ++ rest) (strip e, rest).
+  safeb (pr tbl c e ++ rest) = true -> PCtx c (pr tbl c e ++ rest) (strip e, rest).
 Proof.
   intros H0 c rest Hc Hc3 Hf Hs. rewrite pr_gt in * by exact Hc.
   norm.
@@ -351,7 +344,7 @@ Proof.
 Qed.
 
 Lemma Q_of_prim e :
-  (forall R, starts_lp R = false -> safeb false (pr tbl (L + 4) e ++ R) = true ->
+  (forall R, starts_lp R = false -> safeb (pr tbl (L + 4) e ++ R) = true ->
              PPrim tbl (pr tbl (L + 4) e ++ R) (strip e, R)) -> Qst e.
 Proof. intros H R v Hl Hs Hv. exists (strip e), R. split; [apply H; assumption|exact Hv]. Qed.
 
@@ -373,7 +366,7 @@ Proof.
 Qed.
 
 Lemma S_other e : Pst e -> forall k R v, 1 <= k <= L -> lev tbl e <> k + 1 ->
-  folb tbl (k + 2) R = true -> safeb false (pr tbl (k + 1) e ++ R) = true ->
+  folb tbl (k + 2) R = true -> safeb (pr tbl (k + 1) e ++ R) = true ->
   PLoop tbl k (strip e) R v ->
   exists x r, PBin tbl (S k) (pr tbl (k + 1) e ++ R) (x, r) /\ PLoop tbl k x r v.
 Proof.
@@ -389,7 +382,7 @@ Qed.
 (* assembling the three statements for one expression *)
 Lemma assemble e : Own e -> (L + 4 <= lev tbl e -> Qst e) ->
   (forall k R v, 1 <= k <= L -> lev tbl e = k + 1 -> folb tbl (k + 2) R = true ->
-     safeb false (pr tbl (k + 1) e ++ R) = true -> PLoop tbl k (strip e) R v ->
+     safeb (pr tbl (k + 1) e ++ R) = true -> PLoop tbl k (strip e) R v ->
      exists x r, PBin tbl (S k) (pr tbl (k + 1) e ++ R) (x, r) /\ PLoop tbl k x r v) ->
   Pst e /\ Sst e /\ Qst e.
 Proof.
@@ -402,7 +395,7 @@ Proof.
 Qed.
 
 Lemma assemble_prim e : L + 5 <= lev tbl e ->
-  (forall R, starts_lp R = false -> safeb false (pr tbl 0 e ++ R) = true ->
+  (forall R, starts_lp R = false -> safeb (pr tbl 0 e ++ R) = true ->
              PPrim tbl (pr tbl 0 e ++ R) (strip e, R)) ->
   Pst e /\ Sst e /\ Qst e.
 Proof.
@@ -425,7 +418,7 @@ Qed.
 
 (* ------------------------------------------------------------------ argument lists *)
 Lemma args_parse args : Forall (fun a => wf a = true -> Pst a /\ Sst a /\ Qst a) args ->
-  forallb wf args = true -> forall R, safeb false (pr_args args ++ R) = true ->
+  forallb wf args = true -> forall R, safeb (pr_args args ++ R) = true ->
   PArgs tbl (pr_args args ++ R) (map strip args, R).
 Proof.
   induction 1 as [|a l Ha Hl IH]; intros Hw R Hs.
@@ -441,7 +434,7 @@ Proof.
       * apply head_not_rp, head_ok_app, pr_head.
       * cbn [pr_args]. rewrite <- app_assoc. apply head_not_rp, head_ok_app, pr_head.
       * apply (HPa 0); [lia|reflexivity|exact Hs].
-      * apply IH; [exact Hwl|]. apply (safe_after false (pr tbl 0 a) TComma). exact Hs.
+      * apply IH; [exact Hwl|]. apply (safe_after (pr tbl 0 a) TComma). exact Hs.
 Qed.
 
 (* ------------------------------------------------------------------ the main induction *)
@@ -453,7 +446,7 @@ Proof.
     apply assemble_prim; [cbn [lev]; lia|]. intros R Hl Hs. apply R_prim_num.
   - (* Var *)
     apply assemble_prim; [cbn [lev]; lia|]. intros R Hl Hs.
-    apply R_prim_var; [exact Hl|]. apply (safe_var false x). exact Hs.
+    apply R_prim_var; [exact Hl|]. apply (safe_var x). exact Hs.
   - (* Par *)
     destruct (IHe Hw) as (HPa & _ & _).
     apply assemble_prim; [cbn [lev]; lia|]. intros R Hl Hs.
@@ -465,7 +458,7 @@ Proof.
     pose proof (tbl_total o) as Hk1. pose proof (lvl_le tbl o) as Hk2.
     set (k := lvl tbl o) in *.
     assert (HS : forall R v, folb tbl (k + 2) R = true ->
-       safeb false (pr tbl 0 (Bin o e1 e2) ++ R) = true -> PLoop tbl k (strip (Bin o e1 e2)) R v ->
+       safeb (pr tbl 0 (Bin o e1 e2) ++ R) = true -> PLoop tbl k (strip (Bin o e1 e2)) R v ->
        exists x r, PBin tbl (S k) (pr tbl 0 (Bin o e1 e2) ++ R) (x, r) /\ PLoop tbl k x r v).
     { intros R v Hf Hs Hv. rewrite pr0_bin in *. fold k in Hs |- *.
       cbn [strip] in *. norm.
@@ -473,7 +466,7 @@ Proof.
       - cbn [folb]. fold k. apply Nat.ltb_lt. lia.
       - apply (R_loop_step tbl k _ o _ (strip e2) R); [reflexivity| |exact Hv].
         apply PCtx_to_bin; [lia|]. apply HPb; [lia|exact Hf|].
-        apply (safe_after false (pr tbl (k + 1) e1) (TOp o)). exact Hs. }
+        apply (safe_after (pr tbl (k + 1) e1) (TOp o)). exact Hs. }
     apply assemble.
     + intros rest Hf Hs. cbn [lev] in *. fold k in Hf |- *.
       replace (Nat.min (k + 1) (L + 3)) with (k + 1) by lia.
@@ -494,7 +487,7 @@ Proof.
       rewrite PCtx_un. rewrite pr0_un in *. cbn [app strip] in *.
       apply (R_un tbl _ u (pr tbl (L + 2) e ++ rest)); [destruct u; reflexivity|].
       rewrite <- PCtx_un. apply HPa; [lia|exact Hf|].
-      rewrite <- (is_id_utok u). apply (safe_after false [] (utok u)). exact Hs.
+      apply (safe_after [] (utok u)). exact Hs.
     + cbn [lev]. lia.
     + intros k R v Hk E. cbn [lev] in E. lia.
   - (* Pre *)
@@ -503,7 +496,7 @@ Proof.
     + intros rest Hf Hs. cbn [lev] in *. replace (Nat.min (L + 2) (L + 3)) with (L + 2) by lia.
       rewrite PCtx_un. rewrite pr0_pre in *. cbn [app strip] in *.
       apply R_pre. rewrite <- PCtx_pf. apply HPa; [lia|apply (fol_mono (L + 2)); [lia|exact Hf]|].
-      rewrite <- (is_id_itok d). apply (safe_after false [] (itok d)). exact Hs.
+      apply (safe_after [] (itok d)). exact Hs.
     + cbn [lev]. lia.
     + intros k R v Hk E. cbn [lev] in E. lia.
   - (* Post *)
@@ -527,7 +520,7 @@ Proof.
     apply HQa; [reflexivity|exact Hs|].
     apply (R_post_idx tbl _ _ (strip e2) R); [|exact Hv].
     apply (HPi 0); [lia|reflexivity|].
-    apply (safe_after false (pr tbl (L + 4) e1) TLB). exact Hs.
+    apply (safe_after (pr tbl (L + 4) e1) TLB). exact Hs.
   - (* Mem *)
     destruct (IHe Hw) as (_ & _ & HQa).
     apply assemble_chain; [reflexivity|].
@@ -545,7 +538,7 @@ Proof.
     rewrite pr0_call in *. cbn [app strip] in *.
     apply R_prim_call; [|exact Hl].
     apply args_parse; [exact H|exact Hw|].
-    apply (safe_after false [TId f] TLP). exact Hs.
+    apply (safe_after [TId f] TLP). exact Hs.
   - (* Tern *)
     apply andb_true_iff in Hw. destruct Hw as [Hw Hwb]. apply andb_true_iff in Hw. destruct Hw as [Hwc Hwa].
     destruct (IHe1 Hwc) as (HPc & _ & _). destruct (IHe2 Hwa) as (HPa & _ & _).
@@ -554,14 +547,14 @@ Proof.
     + intros rest Hf Hs. cbn [lev] in *. replace (Nat.min 1 (L + 3)) with 1 by lia.
       change (PTern tbl (pr tbl 0 (Tern e1 e2 e3) ++ rest) (strip (Tern e1 e2 e3), rest)).
       rewrite pr0_tern in *. cbn [strip] in *. norm.
-      assert (Hs2 : safeb false (pr tbl 1 e2 ++ TColon :: pr tbl 1 e3 ++ rest) = true).
-      { apply (safe_after false (pr tbl 2 e1) TQ). exact Hs. }
+      assert (Hs2 : safeb (pr tbl 1 e2 ++ TColon :: pr tbl 1 e3 ++ rest) = true).
+      { apply (safe_after (pr tbl 2 e1) TQ). exact Hs. }
       apply (R_tern tbl _ (strip e1) (pr tbl 1 e2 ++ TColon :: pr tbl 1 e3 ++ rest)
                     (strip e2) (pr tbl 1 e3 ++ rest) (strip e3) rest).
       * rewrite <- (PCtx_bin 2) by lia. apply HPc; [lia|reflexivity|exact Hs].
       * apply head_not_closer, head_ok_app, pr_head.
       * apply (HPa 1); [lia|reflexivity|exact Hs2].
-      * apply (HPb 1); [lia|exact Hf|]. apply (safe_after false (pr tbl 1 e2) TColon). exact Hs2.
+      * apply (HPb 1); [lia|exact Hf|]. apply (safe_after (pr tbl 1 e2) TColon). exact Hs2.
     + cbn [lev]. lia.
     + intros k R v Hk E. cbn [lev] in E. lia.
   - (* Asg *)
@@ -573,7 +566,7 @@ Proof.
       rewrite pr0_asg in *. cbn [strip] in *. norm.
       apply (R_assign tbl _ (strip e1) o (pr tbl 0 e2 ++ rest) (strip e2) rest).
       * apply (HPl 1); [lia|reflexivity|exact Hs].
-      * apply (HPr 0); [lia|exact Hf|]. apply (safe_after false (pr tbl 1 e1) (TAsg o)). exact Hs.
+      * apply (HPr 0); [lia|exact Hf|]. apply (safe_after (pr tbl 1 e1) (TAsg o)). exact Hs.
       * exact Hv.
     + cbn [lev]. lia.
     + intros k R v Hk E. cbn [lev] in E. lia.
